@@ -629,3 +629,9 @@ pub fn c18(ctx: &Ctx) {
         ctx.sample(json!({"string": s, "valid": text::topic_name_valid(s), "is_invalid": TopicName::is_invalid(s)}));
     }
 }
+
+pub fn c17_pair_str(a: &str, b: &str) -> Option<String> {
+    let fa = TopicFilter::try_from(a.to_string()).ok()?;
+    let fb = TopicFilter::try_from(b.to_string()).ok()?;
+    c17_pair(&fa, &fb)
+}
